@@ -130,6 +130,18 @@ CLAIMS = {
         note="tar/PAX/gzip byte-level encoding is exercised, not modelled; the specification sees the abstract tree. umask "
              "022 is set by the driver; the check runs as root. IgnoreNoName and the remote intermediate are not covered yet.",
         ref="3 C12", technique="TLA+ expectation function; TLC-emitted cases replayed through the real pipeline, outcome judged by TLC"),
+    "C17": dict(
+        text="Retry.tla transcribes retry.Transport.RoundTrip (attempt loop, policy decision, rewind through GetBody, pause, "
+             "cancellation) over every server script of <= 3-4 answers (200, 401, 404, 408, 429 with/without Retry-After, "
+             "5xx, timeout, other transport error) x body kind (none, replayable, one-shot) x MaxRetry 0..3 x cancellation "
+             "point, with the property's clauses as invariants and termination under fairness; the emitted case space is "
+             "replayed into the real transport under synctest's virtual clock so that every pause is measured exactly, the "
+             "auth client is run over the retrying transport for Basic/Bearer challenge sequences, and GenericPolicy / "
+             "ExponentialBackoff are evaluated over attempt, backoff, factor, jitter, Retry-After classes including 0 and "
+             "extreme values; RetryJudge.tla checks every record against the clauses and against the model's prediction.",
+        note="The floating-point formula of ExponentialBackoff is observed and bounded, not specified. Fixed in /repo: F9.",
+        ref="3 C17", technique="TLA+ state machine model-checked with TLC (safety + liveness); TLC-emitted cases replayed into "
+                              "the code under a virtual clock, judged and compared with the model by TLC"),
     "C18": dict(
         text="CredModel.tla states the docker config file as an abstract document (foreign top-level keys, entries with auth, "
              "identity/registry tokens, legacy username/password and unknown fields) with the required effect of Put, Get "
